@@ -462,6 +462,12 @@ pub mod compiler;
 pub mod error;
 pub mod gc;
 pub(crate) mod interpreter;
+
+/// Verification hooks (compiled only with --cfg tsrun_verif)
+#[cfg(tsrun_verif)]
+pub mod verif {
+    pub use crate::interpreter::verif::take_step_counters;
+}
 pub mod lexer;
 pub mod parser;
 pub mod platform;
